@@ -30,9 +30,21 @@ pub fn directed_cases() -> Vec<Directed> {
     };
     vec![
         d("one_full_file_then_1_byte", 40, false, &[40], &[1]),
-        d("design_spike_5x40_max100", 100, false, &[40, 40, 40, 40], &[40]),
+        d(
+            "design_spike_5x40_max100",
+            100,
+            false,
+            &[40, 40, 40, 40],
+            &[40],
+        ),
         d("two_per_file", 40, false, &[20, 20], &[20, 20]),
-        d("exact_fill_zero_len_rollover", 40, false, &[10], &[30, 0, 1]),
+        d(
+            "exact_fill_zero_len_rollover",
+            40,
+            false,
+            &[10],
+            &[30, 0, 1],
+        ),
         d("compressed_15s", 50, true, &[15, 15, 15], &[15, 15]),
         d("oversize_first_then_zero_len", 40, false, &[], &[41, 0]),
         d("every_item_rolls", 40, false, &[40, 40], &[40, 40]),
@@ -57,7 +69,10 @@ pub struct Dirs {
 
 fn disk_size(item: &[u8], compress: bool) -> usize {
     if compress {
-        snap::raw::Encoder::new().compress_vec(item).map(|v| v.len()).unwrap_or(usize::MAX)
+        snap::raw::Encoder::new()
+            .compress_vec(item)
+            .map(|v| v.len())
+            .unwrap_or(usize::MAX)
     } else {
         item.len()
     }
@@ -66,7 +81,9 @@ fn disk_size(item: &[u8], compress: bool) -> usize {
 fn fill(rng: &mut Rng, seq: u64, len: usize) -> Vec<u8> {
     let mut v = match rng.below(4) {
         0 => vec![(seq as u8).wrapping_mul(37).wrapping_add(1); len],
-        1 => (0..len).map(|i| (i as u8).wrapping_add(seq as u8)).collect(),
+        1 => (0..len)
+            .map(|i| (i as u8).wrapping_add(seq as u8))
+            .collect(),
         _ => rng.bytes(len),
     };
     if len >= 2 {
@@ -79,7 +96,11 @@ fn fill(rng: &mut Rng, seq: u64, len: usize) -> Vec<u8> {
 /// An item whose on-disk size is exactly `target` (if one of at most 200 raw bytes exists).
 fn item_with_disk_size(rng: &mut Rng, target: usize, compress: bool) -> Option<Vec<u8>> {
     if !compress {
-        return if target <= 200 { Some(rng.bytes(target)) } else { None };
+        return if target <= 200 {
+            Some(rng.bytes(target))
+        } else {
+            None
+        };
     }
     if target == 1 {
         return Some(vec![]);
@@ -127,10 +148,16 @@ pub fn compare(ff: &mut Ff, model: &[Vec<u8>]) -> Result<(), Diff> {
                 });
             }
             Ok(None) => {
-                return Err(Diff { symptom: "item_missing", detail: format!("retrieve({i}) = None") });
+                return Err(Diff {
+                    symptom: "item_missing",
+                    detail: format!("retrieve({i}) = None"),
+                });
             }
             Err(e) => {
-                return Err(Diff { symptom: "retrieve_error", detail: format!("retrieve({i}) = Err({e})") });
+                return Err(Diff {
+                    symptom: "retrieve_error",
+                    detail: format!("retrieve({i}) = Err({e})"),
+                });
             }
         }
     }
@@ -141,7 +168,11 @@ pub fn compare(ff: &mut Ff, model: &[Vec<u8>]) -> Result<(), Diff> {
             Ok(Some(v)) => {
                 return Err(Diff {
                     symptom: "beyond_range_not_none",
-                    detail: format!("retrieve({beyond}) returned {} bytes, {} items exist", v.len(), len),
+                    detail: format!(
+                        "retrieve({beyond}) returned {} bytes, {} items exist",
+                        v.len(),
+                        len
+                    ),
                 });
             }
             Err(e) => {
@@ -184,7 +215,12 @@ pub fn compare_light(ff: &mut Ff, model: &[Vec<u8>], pick: u64) -> Result<(), Di
         Ok(None) => Ok(()),
         Ok(Some(v)) => Err(Diff {
             symptom: "beyond_range_not_none",
-            detail: format!("retrieve({}) returned {} bytes, {} items exist", len + 1, v.len(), len),
+            detail: format!(
+                "retrieve({}) returned {} bytes, {} items exist",
+                len + 1,
+                v.len(),
+                len
+            ),
         }),
         Err(e) => Err(Diff {
             symptom: "beyond_range_not_none",
@@ -199,10 +235,20 @@ pub fn read_one(ff: &mut Ff, model: &[Vec<u8>], i: u64) -> Result<(), Diff> {
         Ok(Some(got)) if got == model[i as usize - 1] => Ok(()),
         Ok(Some(got)) => Err(Diff {
             symptom: "item_corrupt",
-            detail: format!("retrieve({i}) returned {} bytes, expected {}", got.len(), model[i as usize - 1].len()),
+            detail: format!(
+                "retrieve({i}) returned {} bytes, expected {}",
+                got.len(),
+                model[i as usize - 1].len()
+            ),
         }),
-        Ok(None) => Err(Diff { symptom: "item_missing", detail: format!("retrieve({i}) = None") }),
-        Err(e) => Err(Diff { symptom: "retrieve_error", detail: format!("retrieve({i}) = Err({e})") }),
+        Ok(None) => Err(Diff {
+            symptom: "item_missing",
+            detail: format!("retrieve({i}) = None"),
+        }),
+        Err(e) => Err(Diff {
+            symptom: "retrieve_error",
+            detail: format!("retrieve({i}) = Err({e})"),
+        }),
     }
 }
 
@@ -236,14 +282,20 @@ impl<'a> Hist<'a> {
         })
     }
     fn weight(&self) -> (u64, u64) {
-        (self.model.len() as u64, self.model.iter().map(|v| v.len() as u64).sum())
+        (
+            self.model.len() as u64,
+            self.model.iter().map(|v| v.len() as u64).sum(),
+        )
     }
     fn open(&self) -> std::io::Result<Ff> {
         Ff::open(&self.dirs.main, self.max, self.compress, self.limit)
     }
     fn fail(&mut self, op: &str, d: Diff) {
         let (sig, detail) = if self.random_reads {
-            (format!("{LVL}.history.diverged@{RR}"), format!("{op}: {}: {}", d.symptom, d.detail))
+            (
+                format!("{LVL}.history.diverged@{RR}"),
+                format!("{op}: {}: {}", d.symptom, d.detail),
+            )
         } else {
             (format!("{LVL}.{op}.{}", d.symptom), d.detail)
         };
@@ -259,7 +311,10 @@ impl<'a> Hist<'a> {
         }
         // leave the instance the way a real reader would: the last thing before the next
         // operation is usually a read of some arbitrary item, not of the newest one
-        self.poke = self.poke.wrapping_mul(6364136223846793005).wrapping_add(1442695040888963407);
+        self.poke = self
+            .poke
+            .wrapping_mul(6364136223846793005)
+            .wrapping_add(1442695040888963407);
         if self.random_reads && !self.model.is_empty() && (self.poke >> 33) % 4 != 0 {
             let i = (self.poke >> 35) % self.model.len() as u64;
             self.st.count("files.op.retrieve_single_random");
@@ -326,7 +381,13 @@ impl<'a> Hist<'a> {
             self.st.count("files.append.zero_length");
         }
         if let Err(e) = ff.append(number, &item) {
-            self.fail("append", Diff { symptom: "error", detail: format!("append({number}, {} bytes) = Err({e})", item.len()) });
+            self.fail(
+                "append",
+                Diff {
+                    symptom: "error",
+                    detail: format!("append({number}, {} bytes) = Err({e})", item.len()),
+                },
+            );
             return None;
         }
         self.model.push(item);
@@ -345,7 +406,13 @@ impl<'a> Hist<'a> {
 
     fn crash_phase(&mut self, ff: &mut Ff, rng: &mut Rng, sizes: Option<&[usize]>) {
         if let Err(e) = ff.sync_all() {
-            self.fail("sync_all", Diff { symptom: "error", detail: format!("{e}") });
+            self.fail(
+                "sync_all",
+                Diff {
+                    symptom: "error",
+                    detail: format!("{e}"),
+                },
+            );
             return;
         }
         self.ops.push("sync_all".into());
@@ -384,7 +451,9 @@ impl<'a> Hist<'a> {
         let plan = match Plan::build(base, fin, &snaps, m0) {
             Ok(p) => p,
             Err(e) => {
-                return self.st.harness_error(format!("{LVL} job {}: crash plan: {e}", self.job));
+                return self
+                    .st
+                    .harness_error(format!("{LVL} job {}: crash plan: {e}", self.job));
             }
         };
         self.st.count("files.crash_plans");
@@ -437,7 +506,14 @@ impl<'a> Hist<'a> {
         self.st.distinct += seen.len() as u64;
     }
 
-    fn crash_witness(&self, plan: &Plan, dc: DataCut, ic: u64, class: &str, n: Option<u64>) -> Value {
+    fn crash_witness(
+        &self,
+        plan: &Plan,
+        dc: DataCut,
+        ic: u64,
+        class: &str,
+        n: Option<u64>,
+    ) -> Value {
         let (k_idx, k_data) = plan.written(dc, ic);
         json!({
             "history": self.ctx(),
@@ -500,7 +576,10 @@ fn eval_state(h: &mut Hist, plan: &Plan, dc: DataCut, ic: u64, class: &'static s
         let w = h.crash_witness(plan, dc, ic, class, Some(n));
         return h.st.violation(
             &format!("{LVL}.reopen.unreadable_prefix@{class}"),
-            format!("number()={number} after reopen, only {} items were ever appended", h.model.len()),
+            format!(
+                "number()={number} after reopen, only {} items were ever appended",
+                h.model.len()
+            ),
             wt,
             || w,
         );
@@ -554,7 +633,11 @@ fn eval_state(h: &mut Hist, plan: &Plan, dc: DataCut, ic: u64, class: &'static s
                 }
                 None => label = RR,
             },
-            Err(e) => return h.st.harness_error(format!("re-materialize for attribution: {e}")),
+            Err(e) => {
+                return h
+                    .st
+                    .harness_error(format!("re-materialize for attribution: {e}"));
+            }
         }
     }
     let mut w = h.crash_witness(plan, dc, ic, class, Some(n));
@@ -569,7 +652,13 @@ fn eval_state(h: &mut Hist, plan: &Plan, dc: DataCut, ic: u64, class: &'static s
 
 /// Follow-up operations on a reopened crash state (`ff` holds exactly `h.model[..n]`).
 /// Returns the divergence from the model, if any, and the steps taken.
-fn follow_up(h: &mut Hist, mut ff: Ff, n: usize, sub: u64, pokes: bool) -> Option<(String, Vec<String>)> {
+fn follow_up(
+    h: &mut Hist,
+    mut ff: Ff,
+    n: usize,
+    sub: u64,
+    pokes: bool,
+) -> Option<(String, Vec<String>)> {
     let dir: &Path = &h.dirs.crash;
     let mut model: Vec<Vec<u8>> = h.model[..n].to_vec();
     let mut rng = Rng::new(sub);
@@ -579,15 +668,25 @@ fn follow_up(h: &mut Hist, mut ff: Ff, n: usize, sub: u64, pokes: bool) -> Optio
         ($what:expr, $full:expr) => {
             h.st.eval();
             let pick = prng.next_u64();
-            let r = if $full { compare(&mut ff, &model) } else { compare_light(&mut ff, &model, pick) };
+            let r = if $full {
+                compare(&mut ff, &model)
+            } else {
+                compare_light(&mut ff, &model, pick)
+            };
             if let Err(d) = r {
-                return Some((format!("after {}: {}: {}", $what, d.symptom, d.detail), steps));
+                return Some((
+                    format!("after {}: {}: {}", $what, d.symptom, d.detail),
+                    steps,
+                ));
             }
             if pokes && !model.is_empty() && prng.chance(3, 4) {
                 let i = prng.range(1, model.len() as u64);
                 steps.push(format!("retrieve({i})"));
                 if let Err(d) = read_one(&mut ff, &model, i) {
-                    return Some((format!("after {}: {}: {}", $what, d.symptom, d.detail), steps));
+                    return Some((
+                        format!("after {}: {}: {}", $what, d.symptom, d.detail),
+                        steps,
+                    ));
                 }
             }
         };
@@ -663,7 +762,15 @@ pub fn run_directed(cfg: &Cfg, case: &Directed, dirs: &Dirs, st: &mut Stats) {
     h.st.count("files.histories.directed");
     let mut ff = match h.open() {
         Ok(f) => f,
-        Err(e) => return h.fail("open", Diff { symptom: "error", detail: format!("{e}") }),
+        Err(e) => {
+            return h.fail(
+                "open",
+                Diff {
+                    symptom: "error",
+                    detail: format!("{e}"),
+                },
+            );
+        }
     };
     for s in &case.synced {
         h.seq += 1;
@@ -677,13 +784,24 @@ pub fn run_directed(cfg: &Cfg, case: &Directed, dirs: &Dirs, st: &mut Stats) {
 }
 
 pub fn run_random(cfg: &Cfg, idx: u64, dirs: &Dirs, st: &mut Stats) {
-    let mut rng = Rng::new(cfg.seed.wrapping_mul(0x9E37_79B9_7F4A_7C15) ^ vbase::fnv1a(format!("files:{idx}").as_bytes()));
+    let mut rng = Rng::new(
+        cfg.seed.wrapping_mul(0x9E37_79B9_7F4A_7C15)
+            ^ vbase::fnv1a(format!("files:{idx}").as_bytes()),
+    );
     let _ = crash::clear_dir(&dirs.main);
-    let max = if rng.bool() { rng.range(40, 100) } else { rng.range(40, 300) };
+    let max = if rng.bool() {
+        rng.range(40, 100)
+    } else {
+        rng.range(40, 300)
+    };
     let compress = rng.bool();
     // a few histories run with a tiny fd cache; they get no crash phase (truncate then leaves
     // unreferenced files behind, which the crash model below does not describe)
-    let limit = if rng.chance(1, 8) { Some(rng.range(2, 3) as usize) } else { None };
+    let limit = if rng.chance(1, 8) {
+        Some(rng.range(2, 3) as usize)
+    } else {
+        None
+    };
     let random_reads = rng.chance(1, 3);
     let mut h = Hist {
         random_reads,
@@ -712,7 +830,15 @@ pub fn run_random(cfg: &Cfg, idx: u64, dirs: &Dirs, st: &mut Stats) {
     }
     let mut ff = match h.open() {
         Ok(f) => f,
-        Err(e) => return h.fail("open", Diff { symptom: "error", detail: format!("{e}") }),
+        Err(e) => {
+            return h.fail(
+                "open",
+                Diff {
+                    symptom: "error",
+                    detail: format!("{e}"),
+                },
+            );
+        }
     };
     h.check(&mut ff, "open");
     // crash_phases = 2 means: every third history gets a second crash phase
@@ -724,7 +850,9 @@ pub fn run_random(cfg: &Cfg, idx: u64, dirs: &Dirs, st: &mut Stats) {
         cfg.crash_phases
     };
     // place the crash phases at seeded positions
-    let mut crash_at: Vec<usize> = (0..phases_left).map(|_| rng.range(2, cfg.n_ops as u64 - 1) as usize).collect();
+    let mut crash_at: Vec<usize> = (0..phases_left)
+        .map(|_| rng.range(2, cfg.n_ops as u64 - 1) as usize)
+        .collect();
     crash_at.sort();
     for step in 0..cfg.n_ops {
         if h.dead {
@@ -741,7 +869,13 @@ pub fn run_random(cfg: &Cfg, idx: u64, dirs: &Dirs, st: &mut Stats) {
             h.ops.push(format!("truncate({t})"));
             h.st.count("files.op.truncate");
             if let Err(e) = ff.truncate(t) {
-                return h.fail("truncate", Diff { symptom: "error", detail: format!("{e}") });
+                return h.fail(
+                    "truncate",
+                    Diff {
+                        symptom: "error",
+                        detail: format!("{e}"),
+                    },
+                );
             }
             h.model.truncate(t as usize);
             h.check(&mut ff, "truncate");
@@ -755,11 +889,23 @@ pub fn run_random(cfg: &Cfg, idx: u64, dirs: &Dirs, st: &mut Stats) {
             55..=66 => {
                 // truncate: mostly effective, sometimes out of range (must be a no-op)
                 let len = h.model.len() as u64;
-                let t = if rng.chance(1, 5) { len + rng.below(3) } else if len > 0 { rng.range(0, len) } else { 0 };
+                let t = if rng.chance(1, 5) {
+                    len + rng.below(3)
+                } else if len > 0 {
+                    rng.range(0, len)
+                } else {
+                    0
+                };
                 h.ops.push(format!("truncate({t})"));
                 h.st.count("files.op.truncate");
                 if let Err(e) = ff.truncate(t) {
-                    return h.fail("truncate", Diff { symptom: "error", detail: format!("truncate({t}) = Err({e})") });
+                    return h.fail(
+                        "truncate",
+                        Diff {
+                            symptom: "error",
+                            detail: format!("truncate({t}) = Err({e})"),
+                        },
+                    );
                 }
                 if t >= 1 && t < len {
                     h.model.truncate(t as usize);
@@ -773,7 +919,15 @@ pub fn run_random(cfg: &Cfg, idx: u64, dirs: &Dirs, st: &mut Stats) {
                 h.st.count("files.op.reopen");
                 ff = match h.open() {
                     Ok(f) => f,
-                    Err(e) => return h.fail("reopen", Diff { symptom: "error", detail: format!("{e}") }),
+                    Err(e) => {
+                        return h.fail(
+                            "reopen",
+                            Diff {
+                                symptom: "error",
+                                detail: format!("{e}"),
+                            },
+                        );
+                    }
                 };
                 h.check(&mut ff, "reopen");
             }
@@ -781,20 +935,36 @@ pub fn run_random(cfg: &Cfg, idx: u64, dirs: &Dirs, st: &mut Stats) {
                 h.ops.push("sync_all".into());
                 h.st.count("files.op.sync_all");
                 if let Err(e) = ff.sync_all() {
-                    return h.fail("sync_all", Diff { symptom: "error", detail: format!("{e}") });
+                    return h.fail(
+                        "sync_all",
+                        Diff {
+                            symptom: "error",
+                            detail: format!("{e}"),
+                        },
+                    );
                 }
                 h.check(&mut ff, "sync_all");
             }
             87..=91 => {
                 // append with a wrong number must be refused and change nothing
                 let len = h.model.len() as u64;
-                let wrong = if rng.bool() { len + 2 + rng.below(3) } else { rng.range(0, len) };
+                let wrong = if rng.bool() {
+                    len + 2 + rng.below(3)
+                } else {
+                    rng.range(0, len)
+                };
                 h.ops.push(format!("append_wrong_number({wrong})"));
                 h.st.count("files.op.append_wrong_number");
                 if ff.append(wrong, b"xx").is_ok() {
                     return h.fail(
                         "append_wrong_number",
-                        Diff { symptom: "accepted", detail: format!("append({wrong}, ..) accepted while number() = {}", len + 1) },
+                        Diff {
+                            symptom: "accepted",
+                            detail: format!(
+                                "append({wrong}, ..) accepted while number() = {}",
+                                len + 1
+                            ),
+                        },
                     );
                 }
                 h.check(&mut ff, "append_wrong_number");
